@@ -184,14 +184,29 @@ def run(chk, prog):
     # ---------------------------------------------------------------- static language
     sg = prog.cls("StaticGenerativeFunction", "generative_functions/static.py")
     fn = sg.methods["handle_kwargs"]
-    inner = prog.nested(fn, "kwarged_source")
-    r = Evaluator(prog).eval_fn(inner, sg.module, sg, env0={"self": P("self")})
-    src = ("attr", P("self"), "source")
-    ok = is_t(r.ret, "call") and r.ret[1] == src and r.ret[2] == (("star", P("args")),) and dict(r.ret[3]).get("**") == P("kwargs")
-    chk.require(ok, "DELEG-ROLE", "StaticGenerativeFunction.handle_kwargs", "source(*args, **kwargs)", derived=show(r.ret)[:200], expected="self.source(*args, **kwargs)", where=chk.where(sg.module, inner))
+    # the keyword form of a static function: StaticGenerativeFunction(<closure>) with closure(args, kwargs) == self.source(*args, **kwargs).  The closure's
+    # function is a STATIC pytree field: it must be one module-level function with the source passed as dynamic data (Pytree.partial(self.source)(f)); a function
+    # defined inside handle_kwargs is a new object per call, so two traces of equal keyword closures have different pytree structures (a switch over
+    # model(1.0, scale=2.0) and model(2.0, scale=3.0) raises) and values carried by the source (partial_apply) are captured outside the pytree
+    import ast as _ast
+    wrap_calls = [n for n in _ast.walk(fn) if isinstance(n, _ast.Call) and isinstance(n.func, _ast.Call) and _ast.unparse(n.func.func).endswith("Pytree.partial")]
+    nested_defs = [n for n in _ast.walk(fn) if isinstance(n, _ast.FunctionDef) and n is not fn]
+    okw_, derw_ = False, f"{len(nested_defs)} function(s) defined inside handle_kwargs; {len(wrap_calls)} Pytree.partial(...)(f) application(s)"
+    if len(wrap_calls) == 1 and not nested_defs:
+        dyn_ = [_ast.unparse(a_) for a_ in wrap_calls[0].func.args]
+        tgt_ = wrap_calls[0].args[0] if wrap_calls[0].args else None
+        if isinstance(tgt_, _ast.Name) and tgt_.id in sg.module.funcs and dyn_ == ["self.source"]:
+            tf = sg.module.funcs[tgt_.id]
+            rt = Evaluator(prog).eval_fn(tf, sg.module)
+            pn = [a_.arg for a_ in tf.args.args]
+            okw_ = len(pn) == 3 and is_t(rt.ret, "call") and rt.ret[1] == P(pn[0]) and rt.ret[2] == (("star", P(pn[1])),) and dict(rt.ret[3]).get("**") == P(pn[2])
+            derw_ = f"Pytree.partial(self.source)({tgt_.id}); {tgt_.id}({', '.join(pn)}) = {show(rt.ret)[:80]}"
+    chk.require(okw_, "DELEG-ROLE", "StaticGenerativeFunction.handle_kwargs", "keyword form of a static generative function", derived=derw_,
+                expected="StaticGenerativeFunction(Pytree.partial(self.source)(f)) with a module-level f(source, args, kwargs) = source(*args, **kwargs)", where=chk.where(sg.module, fn))
     r = ev.eval_fn(fn, sg.module, sg)
-    chk.require(is_t(r.ret, "ctor") and r.ret[1] == "StaticGenerativeFunction" and ev.closure_of(r.ret[2][0]) is not None and ev.closure_of(r.ret[2][0]).node is inner,
-                "DELEG-ROLE", "StaticGenerativeFunction.handle_kwargs/wrap", "wraps the kwarged source", derived=show(r.ret)[:200], expected="StaticGenerativeFunction(kwarged_source)", where=chk.where(sg.module, fn))
+    chk.require(is_t(r.ret, "ctor") and r.ret[1] == "StaticGenerativeFunction" and len(r.ret[2]) == 1,
+                "DELEG-ROLE", "StaticGenerativeFunction.handle_kwargs/wrap", "wraps the kwarged source", derived=show(r.ret)[:200], expected="StaticGenerativeFunction(<closure>)", where=chk.where(sg.module, fn))
+    src = ("attr", P("self"), "source")
     fn = sg.methods["partial_apply"]
     r = ev.eval_fn(fn, sg.module, sg)
     dyn = ("attr", src, "dyn_args")
